@@ -51,6 +51,16 @@ def pool(name):
     return _POOLS[name]
 
 
+def colliding_spelling():
+    """an integer k whose text str(k) falls into the same slot of a small hash table under the current hash seed: a
+    set holding k and str(k) then iterates in insertion order, so two automata that introduce the two symbols in
+    opposite orders hold equal symbol sets that iterate differently"""
+    for k in range(1, 5000):
+        if (hash(str(k)) ^ hash(k)) & 7 == 0:
+            return k
+    return 7
+
+
 def pair_cases(pa, pb, symsb=("a", "b"), symsa=("a", "b")):
     na, nb = len(pool(pa)), len(pool(pb))
     for i in range(na):
@@ -177,6 +187,10 @@ class C02(Prop):
                     Layer("pairs P21xP1", lambda: pair_cases("P21", "P1")),
                     Layer("pairs P2xP2 mixed-type symbols", lambda: pair_cases("P2", "P2", (1, "x"), (1, "x")),
                           policies=["natural@int", "1@int"]),
+                    Layer("pairs P2xP2 symbols with one spelling and two types, introduced in opposite orders (every 3rd)",
+                          lambda: (c for k, c in enumerate(pair_cases("P2", "P2", (str(colliding_spelling()), colliding_spelling()),
+                                                                     (colliding_spelling(), str(colliding_spelling())))) if k % 3 == 0),
+                          policies=["natural@int", "1@int"]),
                     Layer("variants P2", lambda: variant_cases("P2")),
                     Layer("minimize: cycle DFAs n=4", lambda: cycle_dfa_cases(4), policies=["natural@int", "1@str", "2@int"]),
                     Layer("minimize: cycle DFAs n=5 (partial b, every 7th)",
@@ -190,6 +204,9 @@ class C02(Prop):
                 Layer("pairs P2xP2 mixed-type symbols", lambda: pair_cases("P2", "P2", (1, "x"), (1, "x")),
                       policies=["natural@int", "1@int"]),
                 Layer("variants P2", lambda: variant_cases("P2")),
+                Layer("pairs P2xP2 symbols with one spelling and two types, introduced in opposite orders",
+                      lambda: pair_cases("P2", "P2", (str(colliding_spelling()), colliding_spelling()),
+                                         (colliding_spelling(), str(colliding_spelling()))), policies=few[:3]),
                 Layer("variants P3s", lambda: variant_cases("P3s"), policies=few),
                 Layer("minimize: cycle DFAs n=4 (partial b)", lambda: cycle_dfa_cases(4, True), policies=few),
                 Layer("minimize: cycle DFAs n=5", lambda: cycle_dfa_cases(5), policies=few[:3]),
